@@ -9,7 +9,7 @@ Value-level log of permutation-table rows (ghost `a4`: every `add_perm` call by 
    as the chain seed, from the rows of the leaf-layer matrices in schedule order; the walk uses the index bits and the prepared root."""
 import re
 
-from vf.extract import ExtractError
+from vf.extract import ExtractError, match_brace
 from vf.unit import Unit, unget_copied_unwrap_or, unfor_zip_pairs
 
 PRELUDE = r'''
@@ -94,6 +94,10 @@ pub uninterp spec fn a4_opid(k: int) -> NonPrimitiveOpId;
 pub proof fn lemma_vals_ext<F: Field>(a: &CircuitBuilder<F>, b: &CircuitBuilder<F>, s: Seq<ExprId>)
     requires b.extends(a), a.has_all(s) ensures b.has_all(s), b.vals_of(s) == a.vals_of(s)
 { assert forall|i: int| 0 <= i < s.len() implies b.has(#[trigger] s[i]) && b.val(s[i]) == a.val(s[i]) by { assert(a.has(s[i])); }  assert(b.vals_of(s) =~= a.vals_of(s)); }
+pub proof fn lemma_opened_ext<F: Field>(a: &CircuitBuilder<F>, b: &CircuitBuilder<F>, vv: Seq<Vec<Target>>)
+    requires b.extends(a), forall|k: int| 0 <= k < vv.len() ==> a.has_all(#[trigger] vv[k]@)
+    ensures forall|k: int| 0 <= k < vv.len() ==> b.has_all(#[trigger] vv[k]@) && b.vals_of(vv[k]@) == a.vals_of(vv[k]@)
+{ assert forall|k: int| 0 <= k < vv.len() implies b.has_all(#[trigger] vv[k]@) && b.vals_of(vv[k]@) == a.vals_of(vv[k]@) by { lemma_vals_ext(a, b, vv[k]@); } }
 pub proof fn lemma_ext_trans<F: Field>(a: &CircuitBuilder<F>, b: &CircuitBuilder<F>, c: &CircuitBuilder<F>) requires b.extends(a), c.extends(b) ensures c.extends(a) {}
 #[verifier::external_body] pub fn vec_none(n: usize) -> (r: Vec<Option<ExprId>>) ensures r@.len() == n, forall|i: int| 0 <= i < n ==> (#[trigger] r@[i]) is None { unimplemented!() }
 #[verifier::external_body] pub fn vec_bool(b: bool, n: usize) -> (r: Vec<bool>) ensures r@ == Seq::new(n as nat, |i: int| b) { unimplemented!() }
@@ -147,6 +151,86 @@ pub proof fn lemma_rows_len<F: Field>(s: Seq<Arity4PathStep>, bits: Seq<F>, inj:
     requires 0 <= n <= s.len() ensures a4_rows(s, bits, inj, cfg, n).len() == n + injs(s, n), 0 <= injs(s, n) <= n, 0 <= consumed(s, n) <= 2 * n decreases n
 { if n > 0 { lemma_rows_len(s, bits, inj, cfg, n - 1); } }
 pub proof fn lemma_injs_mono(s: Seq<Arity4PathStep>, i: int, n: int) requires 0 <= i <= n ensures injs(s, i) <= injs(s, n) decreases n - i { if i < n { lemma_injs_mono(s, i + 1, n); } }
+} // verus!
+'''
+
+SPEC3 = r'''
+verus! {
+// ---------------------------------------------------------------- the arity-4 batch driver
+pub open spec fn tseq_(opened: Seq<Vec<Target>>) -> Seq<Seq<ExprId>> { Seq::new(opened.len(), |i: int| opened[i]@) }
+pub open spec fn flat_rows<F>(ov: Seq<Seq<F>>, idxs: Seq<usize>, n: int) -> Seq<F> decreases n { if n <= 0 { Seq::empty() } else { flat_rows(ov, idxs, n - 1) + ov[idxs[n - 1] as int] } }
+/// `idxs.iter().flat_map(|&m| opened[m].iter().copied()).collect()`: the opened rows of the listed matrices, concatenated in list order
+#[verifier::external_body]
+pub fn gather_rows(idxs: &Vec<usize>, opened: &[Vec<Target>]) -> (r: Vec<Target>)
+    requires forall|k: int| 0 <= k < idxs@.len() ==> (#[trigger] idxs@[k]) < opened@.len()
+    ensures r@ == flat_rows(tseq_(opened@), idxs@, idxs@.len() as int)
+{ unimplemented!() }
+/// the wide leaf sponge by value: digest and the table rows it adds (ASSUMED callee; internals: units hash / vbatch)
+pub uninterp spec fn leaf_digest_val<F: Field>(cfg: PermConfig, data: Seq<F>) -> Seq<F>;
+pub uninterp spec fn sponge_rows<F: Field>(cfg: PermConfig, data: Seq<F>, merkle_seed: bool) -> Seq<RowV<F>>;
+#[verifier::external_body]
+pub fn add_arity4_leaf_digest_from_base<EF: FieldX>(circuit: &mut CircuitBuilder<EF>, permutation_config: PermConfig, leaf_data: &[Target], merkle_seed: bool) -> (ret: Result<Vec<Target>, CircuitBuilderError>)
+    requires old(circuit).has_all(leaf_data@)
+    ensures final(circuit).extends(old(circuit)), final(circuit).sat@ == old(circuit).sat@,
+            ret matches Ok(d) ==> ({
+                let dv = leaf_digest_val(permutation_config, old(circuit).vals_of(leaf_data@));
+                &&& final(circuit).has_all(d@) && final(circuit).vals_of(d@) == dv && d@.len() == permutation_config.cext
+                &&& final(circuit).a4@ == old(circuit).a4@ + sponge_rows(permutation_config, old(circuit).vals_of(leaf_data@), merkle_seed)
+                &&& final(circuit).seed@ == (if merkle_seed { Some(dv) } else { None::<Seq<EF>> })
+            })
+{ unimplemented!() }
+/// arity4_prepare by value (ASSUMED here; its schedule is unit a4sched, the cap selection unit mmcs): no table row, no constraint
+pub uninterp spec fn sp_schedule(dims: Seq<Dimensions>, num_roots: int) -> Seq<Arity4PathStep>;
+pub uninterp spec fn sp_leaf_rows(dims: Seq<Dimensions>) -> Seq<usize>;
+pub uninterp spec fn sp_selected_root<F: Field>(cap: Seq<Seq<F>>, bits: Seq<F>, dims: Seq<Dimensions>) -> Seq<F>;
+#[verifier::external_body]
+pub fn arity4_prepare<EF: FieldX>(circuit: &mut CircuitBuilder<EF>, permutation_config: PermConfig, commitment_cap: &[Vec<Target>], dimensions: &[Dimensions], index_bits: &[Target])
+    -> (ret: Result<(Vec<Target>, Vec<Arity4PathStep>, Vec<usize>), CircuitBuilderError>)
+    requires old(circuit).has_all(index_bits@), forall|k: int| 0 <= k < commitment_cap@.len() ==> old(circuit).has_all(#[trigger] commitment_cap@[k]@)
+    ensures final(circuit).extends_pure(old(circuit)),
+            ret matches Ok(t) ==> ({
+                &&& permutation_config.a4_shape()
+                &&& final(circuit).has_all(t.0@) && final(circuit).vals_of(t.0@) == sp_selected_root(vals2(old(circuit), commitment_cap@), old(circuit).vals_of(index_bits@), dimensions@)
+                &&& t.1@ == sp_schedule(dimensions@, commitment_cap@.len() as int) && t.1@.len() < 0x1000_0000 && t.2@ == sp_leaf_rows(dimensions@)
+                &&& forall|l: int| 0 <= l < t.1@.len() ==> ((#[trigger] t.1@[l]).step == 2 || t.1@[l].step == 4)
+                &&& forall|l: int, k: int| 0 <= l < t.1@.len() && 0 <= k < t.1@[l].injection_rows@.len() ==> (#[trigger] t.1@[l].injection_rows@[k]) < dimensions@.len()
+                &&& forall|k: int| 0 <= k < t.2@.len() ==> (#[trigger] t.2@[k]) < dimensions@.len()
+            })
+{ unimplemented!() }
+/// digests of the injected levels before level i, in level order, by value
+pub open spec fn inj_digests<F: Field>(s: Seq<Arity4PathStep>, ov: Seq<Seq<F>>, cfg: PermConfig, i: int) -> Seq<Seq<F>> decreases i {
+    if i <= 0 { Seq::empty() } else { let p = inj_digests(s, ov, cfg, i - 1);
+        if injects(s[i - 1]) { p.push(leaf_digest_val(cfg, flat_rows(ov, s[i - 1].injection_rows@, s[i - 1].injection_rows@.len() as int))) } else { p } }
+}
+/// the table rows those digests cost, in level order (none of them is a chain seed)
+pub open spec fn inj_sponges<F: Field>(s: Seq<Arity4PathStep>, ov: Seq<Seq<F>>, cfg: PermConfig, i: int) -> Seq<RowV<F>> decreases i {
+    if i <= 0 { Seq::empty() } else { let p = inj_sponges(s, ov, cfg, i - 1);
+        if injects(s[i - 1]) { p + sponge_rows(cfg, flat_rows(ov, s[i - 1].injection_rows@, s[i - 1].injection_rows@.len() as int), false) } else { p } }
+}
+pub proof fn lemma_gather<F: Field>(c: &CircuitBuilder<F>, opened: Seq<Vec<Target>>, idxs: Seq<usize>, n: int)
+    requires 0 <= n <= idxs.len(), forall|k: int| 0 <= k < idxs.len() ==> (#[trigger] idxs[k]) < opened.len(), forall|k: int| 0 <= k < opened.len() ==> c.has_all(#[trigger] opened[k]@)
+    ensures c.has_all(flat_rows(tseq_(opened), idxs, n)), c.vals_of(flat_rows(tseq_(opened), idxs, n)) == flat_rows(vals2(c, opened), idxs, n)
+    decreases n
+{
+    if n > 0 {
+        lemma_gather(c, opened, idxs, n - 1);
+        let a = flat_rows(tseq_(opened), idxs, n - 1); let b = opened[idxs[n - 1] as int]@;
+        assert(c.has_all(b));
+        assert forall|i: int| 0 <= i < (a + b).len() implies c.has(#[trigger] (a + b)[i]) by { if i < a.len() { assert(c.has(a[i])); } else { assert(c.has(b[i - a.len()])); } }
+        assert(c.vals_of(a + b) =~= c.vals_of(a) + c.vals_of(b));
+    } else {
+        assert(c.vals_of(Seq::<ExprId>::empty()) =~= Seq::<F>::empty());
+    }
+}
+pub proof fn lemma_vals2_push<F: Field>(a: &CircuitBuilder<F>, b: &CircuitBuilder<F>, vv: Seq<Vec<Target>>, d: Vec<Target>)
+    requires b.extends(a), forall|k: int| 0 <= k < vv.len() ==> a.has_all(#[trigger] vv[k]@)
+    ensures vals2(b, vv.push(d)) == vals2(a, vv).push(b.vals_of(d@)), forall|k: int| 0 <= k < vv.len() ==> b.has_all(#[trigger] vv[k]@)
+{
+    lemma_opened_ext(a, b, vv);
+    assert(vals2(b, vv.push(d)) =~= vals2(a, vv).push(b.vals_of(d@)));
+}
+pub proof fn lemma_inj_digests_len<F: Field>(s: Seq<Arity4PathStep>, ov: Seq<Seq<F>>, cfg: PermConfig, i: int) requires 0 <= i ensures inj_digests(s, ov, cfg, i).len() == injs(s, i) decreases i
+{ if i > 0 { lemma_inj_digests_len(s, ov, cfg, i - 1); } }
 } // verus!
 '''
 
@@ -318,8 +402,101 @@ def build():
             assert(forall|k: int| 0 <= k < outt.len() ==> cz.val(#[trigger] outt[k]) == (if sch.len() == 0 { c0.vals_of(leaf_digest@)[k] } else { circuit.row@[k] }));
         }""")
     u.text(SPEC2)
+    # ---------------------------------------------------------------- verify_batch_circuit_arity4 (the driver)
+    d = u.extract(M, '', 'verify_batch_circuit_arity4', 'verify_batch_circuit_arity4')
+    d.set_sig('R11', 'fn verify_batch_circuit_arity4<EF: FieldX>(circuit: &mut CircuitBuilder<EF>, permutation_config: PermConfig, commitment_cap: &[Vec<Target>], dimensions: &[Dimensions], index_bits: &[Target], opened_base_coeffs: &[Vec<Target>]) -> Result<Vec<NonPrimitiveOpId>, CircuitBuilderError>')
+    d.rewrite_re('R11', r'let permutation_config: PermConfig = permutation_config\.into\(\);', '', min_count=0)
+    d.rewrite_re('R11', r'::<F, EF>\(', '(', min_count=0)
+    d.rewrite_re('R11', r'::<EF>\(', '(', min_count=0)
+    d.erase_struct_error('CircuitBuilderError::WrongBatchSize', 'CircuitBuilderError::wrong_batch_size(0, 0)')
+    d.rewrite_re('R6', r'(\w+(?:\s*\.\s*\w+)*)\s*\.iter\(\)\s*\.flat_map\(\|&mat_idx\| opened_base_coeffs\[mat_idx\]\.iter\(\)\.copied\(\)\)\s*\.collect\(\)', lambda m: f'gather_rows(&{"".join(m.group(1).split())}, opened_base_coeffs)', min_count=0)
+    d.rewrite_re('R5', r'for step in &schedule \{', 'for si_ in 0..schedule.len() { let step = &schedule[si_];', min_count=0)
+    d.rewrite_re('R7', r'let mut injected_digests = Vec::new\(\);', 'let mut injected_digests: Vec<Vec<Target>> = Vec::new();', min_count=0)
+    d.rewrite_re('R6', r'injected_digests\.push\((add_arity4_leaf_digest_from_base\([^;]*?\)\?)\);', r'let dg_ = \1; injected_digests.push(dg_);', min_count=0, flags_dotall=True)
+    d.rewrite_re('R11', r'\(&(\w+), opened_base_coeffs\)', r'(&\1, opened_base_coeffs)', min_count=0)
+    d.attr('#[verifier::loop_isolation(false)]')
+    d.requires('allocated', '''old(circuit).has_all(index_bits@) && (forall|k: int| 0 <= k < commitment_cap@.len() ==> old(circuit).has_all(#[trigger] commitment_cap@[k]@))
+        && (forall|k: int| 0 <= k < opened_base_coeffs@.len() ==> old(circuit).has_all(#[trigger] opened_base_coeffs@[k]@))''')
+    OV = 'vals2(old(circuit), opened_base_coeffs@)'
+    SCH = 'sp_schedule(dimensions@, commitment_cap@.len() as int)'
+    d.ensures('a_batch_of_another_size_is_an_error', 'dimensions@.len() != opened_base_coeffs@.len() ==> ret is Err')
+    d.ensures('injected_levels_hashed_in_level_order_then_the_leaf_layer_as_the_chain_seed_then_the_native_walk', f'''ret is Ok ==> ({{
+            let c0 = old(circuit); let ov = {OV}; let sch = {SCH}; let n = sch.len() as int; let lr = sp_leaf_rows(dimensions@);
+            final(circuit).a4@ == c0.a4@ + inj_sponges(sch, ov, permutation_config, n) + sponge_rows(permutation_config, flat_rows(ov, lr, lr.len() as int), true)
+                + a4_rows(sch, c0.vals_of(index_bits@), inj_digests(sch, ov, permutation_config, n), permutation_config, n)
+        }})''')
+    d.ensures('recovered_root_is_the_selected_cap_entry', f'''ret is Ok ==> ({{
+            let c0 = old(circuit); let ov = {OV}; let sch = {SCH}; let n = sch.len() as int; let lr = sp_leaf_rows(dimensions@); let cext = permutation_config.cext as int;
+            let rootv = sp_selected_root(vals2(c0, commitment_cap@), c0.vals_of(index_bits@), dimensions@);
+            let outv = if n == 0 {{ leaf_digest_val(permutation_config, flat_rows(ov, lr, lr.len() as int)) }} else {{ final(circuit).row@ }};
+            final(circuit).sat@ == (c0.sat@ && forall|k: int| 0 <= k < imin(cext, rootv.len() as int) ==> outv[k] == #[trigger] rootv[k])
+        }})''')
+    SL = 'for si_ in 0..schedule.len()'
+    if SL in d.body and 'let dg_ =' in d.body:
+        d.before(SL, f'''let ghost c0 = *old(circuit); let ghost ov = vals2(&c0, opened_base_coeffs@); let ghost sch = schedule@; let ghost cp = *circuit;
+        proof {{ assert(circuit.a4@ =~= c0.a4@ + inj_sponges(sch, ov, permutation_config, 0)); assert(vals2(circuit, injected_digests@) =~= inj_digests(sch, ov, permutation_config, 0)); }}''')
+        d.loop(SL, invariants=[
+            ('frame', 'circuit.extends(&c0) && circuit.extends(&cp) && circuit.sat@ == c0.sat@ && sch == schedule@'),
+            ('injected_digests_so_far', '''injected_digests@.len() == injs(sch, si_ as int) && vals2(circuit, injected_digests@) == inj_digests(sch, ov, permutation_config, si_ as int)
+                && (forall|k: int| 0 <= k < injected_digests@.len() ==> circuit.has_all(#[trigger] injected_digests@[k]@))
+                && circuit.a4@ == c0.a4@ + inj_sponges(sch, ov, permutation_config, si_ as int)'''),
+        ])
+        lo = d._loop_open(SL)
+        d.body = d.body[:lo + 1] + ' let ghost cb = *circuit; let ghost ids0 = injected_digests@; proof { lemma_opened_ext(&c0, circuit, opened_base_coeffs@); lemma_gather(circuit, opened_base_coeffs@, schedule@[si_ as int].injection_rows@, schedule@[si_ as int].injection_rows@.len() as int); assert(vals2(circuit, opened_base_coeffs@) =~= ov); }' + d.body[lo + 1:]
+        d.rewrite_re('SPEC', r'(injected_digests\.push\(dg_\);)', r'''\1 proof {
+                lemma_ext_trans(&c0, &cb, circuit);
+                lemma_vals2_push(&cb, circuit, ids0, dg_);
+                assert(cb.vals_of(injected_leaf_data@) == flat_rows(ov, sch[si_ as int].injection_rows@, sch[si_ as int].injection_rows@.len() as int));
+            }''')
+        d.at_loop_end(SL, '''proof {
+            if !injects(sch[si_ as int]) { assert(circuit.a4@ == cb.a4@); }
+            assert(circuit.a4@ =~= c0.a4@ + inj_sponges(sch, ov, permutation_config, si_ as int + 1));
+        }''')
+    if 'let leaf_data' in d.body:
+        d.before('let leaf_data', 'let ghost ci = *circuit; proof { lemma_opened_ext(&c0, circuit, opened_base_coeffs@); lemma_inj_digests_len(sch, ov, permutation_config, sch.len() as int); lemma_gather(circuit, opened_base_coeffs@, leaf_rows@, leaf_rows@.len() as int); assert(vals2(circuit, opened_base_coeffs@) =~= ov); }')
+    if re.search(r'arity4_emit_path\(', d.body):
+        d.rewrite_re('SPEC', r'(arity4_emit_path\()', r'''{ let ghost cl = *circuit; proof {
+            lemma_ext_trans(&c0, &ci, circuit);
+            lemma_vals_ext(&c0, circuit, index_bits@);
+            lemma_ext_trans(&cp, &ci, circuit); lemma_vals_ext(&cp, circuit, selected_root@);
+            assert forall|k: int| 0 <= k < injected_digests@.len() implies circuit.has_all(#[trigger] injected_digests@[k]@) by { lemma_vals_ext(&ci, circuit, injected_digests@[k]@); }
+            assert(vals2(circuit, injected_digests@) =~= vals2(&ci, injected_digests@)) by { assert forall|k: int| 0 <= k < injected_digests@.len() implies circuit.vals_of(#[trigger] injected_digests@[k]@) == ci.vals_of(injected_digests@[k]@) by { lemma_vals_ext(&ci, circuit, injected_digests@[k]@); } }
+        } let r_ = \1''', min_count=0)
+        # close the block opened above after the call's closing parenthesis
+        m_ = re.search(r'let r_ = arity4_emit_path\(', d.body)
+        c_ = match_brace(d.body, m_.end() - 1)
+        d.body = d.body[:c_ + 1] + '''; proof {
+            if r_ is Ok {
+                let n = sch.len() as int; let lr = leaf_rows@; let cext = permutation_config.cext as int;
+                let ld = flat_rows(ov, lr, lr.len() as int);
+                assert(ci.vals_of(leaf_data@) == ld);
+                assert(ci.a4@ == c0.a4@ + inj_sponges(sch, ov, permutation_config, n));
+                assert(cl.a4@ == ci.a4@ + sponge_rows(permutation_config, ld, true));
+                assert(vals2(&cl, injected_digests@) == inj_digests(sch, ov, permutation_config, n));
+                assert(cl.vals_of(index_bits@) == c0.vals_of(index_bits@));
+                assert(circuit.a4@ =~= c0.a4@ + inj_sponges(sch, ov, permutation_config, n) + sponge_rows(permutation_config, ld, true)
+                    + a4_rows(sch, c0.vals_of(index_bits@), inj_digests(sch, ov, permutation_config, n), permutation_config, n));
+                // the root
+                let rootv = sp_selected_root(vals2(&c0, commitment_cap@), c0.vals_of(index_bits@), dimensions@);
+                assert(cl.vals_of(selected_root@) == rootv);
+                assert(rootv.len() == selected_root@.len());
+                let outv = if n == 0 { cl.vals_of(leaf_digest@) } else { circuit.row@ };
+                assert(cl.vals_of(leaf_digest@) == leaf_digest_val(permutation_config, ld));
+                let cnt = imin(cext, selected_root@.len() as int);
+                assert((forall|k: int| 0 <= k < cnt ==> outv[k] == cl.val(#[trigger] selected_root@[k])) == (forall|k: int| 0 <= k < cnt ==> outv[k] == #[trigger] rootv[k])) by {
+                    if forall|k: int| 0 <= k < cnt ==> outv[k] == cl.val(#[trigger] selected_root@[k]) {
+                        assert forall|k: int| 0 <= k < cnt implies outv[k] == #[trigger] rootv[k] by { assert(rootv[k] == cl.val(selected_root@[k])); }
+                    }
+                    if forall|k: int| 0 <= k < cnt ==> outv[k] == #[trigger] rootv[k] {
+                        assert forall|k: int| 0 <= k < cnt implies outv[k] == cl.val(#[trigger] selected_root@[k]) by { assert(rootv[k] == cl.val(selected_root@[k])); }
+                    }
+                }
+            }
+        } r_ }''' + d.body[c_ + 1:]
+    u.text(SPEC3)
     u.text('verus! {')
     u.emit(r)
     u.emit(e)
+    u.emit(d)
     u.text('}')
     return u
